@@ -338,8 +338,16 @@ func c36Run(r *simkit.Run) {
 				}
 			}
 
-			statehash = valuehash.RandomSHA256()
-			r.Op("admin: consensus nodes now %d", len(tables.consensus))
+			// the membership covers the suffrage and its candidates, the hash is the suffrage state's: candidates come
+			// and go under an unchanged hash
+			sameHash := r.Chance(1, 2)
+			if !sameHash {
+				statehash = valuehash.RandomSHA256()
+			} else {
+				r.Probe("consensus_nodes_changed_under_the_same_state_hash")
+			}
+
+			r.Op("admin: consensus nodes now %d (state hash changed=%v)", len(tables.consensus), !sameHash)
 		}
 	}
 
